@@ -20,6 +20,7 @@ type slicer struct {
 	seen     map[ssa.Value]bool
 	order    []ssa.Value
 	control  bool // also follow the conditions selecting phi operands
+	objFlow  bool // a call on an object (interface / pointer receiver) depends on what other calls fed into that object
 }
 
 func (c *Ctx) newSlicer() *slicer {
@@ -281,12 +282,59 @@ func (s *slicer) load(u *ssa.UnOp, depth int) {
 	}
 }
 
+// objectFeeds visits the arguments of every call that takes (an interface/conversion alias of) obj: what was written
+// into a hash, builder or buffer object is part of what a later call on it returns.
+func (s *slicer) objectFeeds(obj ssa.Value, depth int) {
+	roots := origins(obj)
+	al := map[ssa.Value]bool{}
+	var grow func(v ssa.Value)
+	grow = func(v ssa.Value) {
+		if al[v] {
+			return
+		}
+		al[v] = true
+		for _, ref := range valueReferrers(v) {
+			switch r := ref.(type) {
+			case *ssa.ChangeInterface:
+				grow(r)
+			case *ssa.MakeInterface:
+				grow(r)
+			case *ssa.ChangeType:
+				grow(r)
+			case *ssa.Phi:
+				grow(r)
+			}
+		}
+	}
+	for _, r := range roots {
+		grow(r)
+	}
+	for a := range al {
+		for _, ref := range valueReferrers(a) {
+			if ci, ok := ref.(ssa.CallInstruction); ok {
+				for _, arg := range ci.Common().Args {
+					if !al[arg] {
+						s.visit(arg, depth)
+					}
+				}
+			}
+		}
+	}
+}
+
 func (s *slicer) call(x *ssa.Call, depth int) {
 	cc := x.Common()
 	if cc.IsInvoke() {
 		s.visit(cc.Value, depth)
+		if s.objFlow {
+			s.objectFeeds(cc.Value, depth)
+		}
 	} else if _, ok := cc.Value.(*ssa.Function); !ok {
 		s.visit(cc.Value, depth)
+	} else if s.objFlow && cc.Signature().Recv() != nil && len(cc.Args) > 0 {
+		if _, isPtr := cc.Args[0].Type().Underlying().(*types.Pointer); isPtr {
+			s.objectFeeds(cc.Args[0], depth)
+		}
 	}
 	for _, a := range cc.Args {
 		s.visit(a, depth)
@@ -442,6 +490,8 @@ func origins(v ssa.Value) []ssa.Value {
 				out = append(out, v)
 			}
 		case *ssa.MakeInterface:
+			walk(x.X)
+		case *ssa.ChangeInterface:
 			walk(x.X)
 		case *ssa.UnOp:
 			if x.Op == token.MUL {
